@@ -60,9 +60,14 @@ for _pid, _what, _sec in [
                         design=_sec, technique="differential execution of extracted Coq model + direct oracle (Coq invariant proofs in progress)",
                         note=WORLD_NOTE + _INTERIM % _pid)
 
-CHECKS["C11"] = dict(category="exploration", text="Correspondence of the extracted Coq CFG model (Model/Cfg.v) with the working tree and a shadow-set oracle over random histories of every MutableSet operation; adjacency views of the CFG and of the nodes after every step.",
-                     design="5 C11", technique="differential execution of extracted Coq model + shadow-set oracle (Coq refinement proofs in progress)",
-                     note="networkx.MultiDiGraph modelled by its abstract content. " + _INTERIM % "C11")
+CHECKS["C11"] = dict(
+    text="Theorems over Model/Cfg.v (cfg.py as coded: _edge_key, guarded add, keyed discard, the MutableSet mixins transcribed from CPython): every state reachable by any "
+         "sequence of operations is a duplicate-free set of (source, target, label) triples; each operation is exactly the mathematical set operation and fails exactly when "
+         "the built-in set would; membership/len/iteration agree with the set; add-present and discard-absent are identities; parallel edges differing in label coexist; "
+         "out_edges/in_edges and CfgNode.outgoing/incoming_edges are exactly the edges with that source/target. Correspondence: random histories on the working tree and the "
+         "extracted model with a shadow-set oracle, all adjacency views after every step.",
+    design="5 C11", technique="Coq proof (set refinement, invariant over all histories) + differential correspondence + shadow-set oracle",
+    note="networkx.MultiDiGraph is modelled by its abstract content (keyed edge list; new keys only need to be unused); iteration order is not modelled (pop takes the implementation's choice as witness). ")
 CHECKS["C19"] = dict(
     text="Theorems over Model/ByteStore.v (constructor check, size/initialized_size setters as coded, block views): initialized_size = stored byte count; the constructor "
          "rejects init > size and establishes the invariant; initialized_size pads with zeros or truncates; shrinking size truncates; stored bytes <= size after ANY sequence of "
